@@ -624,9 +624,11 @@ def _sweep(rep, pp):
                 rep.violation("tree: Jacobian equals the true derivative", _sig(desc), inputs={"tree": desc, "point": [p.tolist() for p in pt]},
                               detail=f"max abs diff {np.max(np.abs(J - ej.real)) if J.shape == ej.shape else 'shape'}")
         # l2_norm and row slicing directly
-        for dim, nc, zeros in [(d, n, z) for d in (1, 2, 3) for n in (1, 2, 3) for z in (False, True)]:
+        # magnitudes: order one, and small non-zero vectors (norm 1e-10 .. 1e-6: far above the function's own zero threshold 1e-12,
+        # e.g. displacement jumps in kilometres) -- the norm is smooth at every non-zero vector
+        for dim, nc, zeros, mag in [(d, n, z, m) for d in (1, 2, 3) for n in (1, 2, 3) for z in (False, True) for m in (1.0, 1e-7, 1e-10)]:
             if True:
-                v = np.array([rng.uniform(0.3, 2) * rng.choice([-1, 1]) for _ in range(dim * nc)])
+                v = mag * np.array([rng.uniform(0.3, 2) * rng.choice([-1, 1]) for _ in range(dim * nc)])
                 if zeros:
                     if dim == 1:
                         continue
@@ -647,9 +649,58 @@ def _sweep(rep, pp):
                     for d in range(dim):
                         k = c * dim + d
                         dJ[c, k] = resh[d, c] / nv[c] * (2 * v[k] + 1)
-                sw.case(("l2_norm", dim, nc, tuple(np.round(v, 6))), True, sample={"l2_norm": [dim, nc]})
-                if not (np.allclose(r.val, nv, rtol=1e-12) and np.allclose(r.jac.toarray(), dJ, rtol=1e-10, atol=1e-12)):
-                    rep.violation("l2_norm: value and Jacobian", f"dim={dim}", inputs={"dim": dim, "v": v.tolist()}, detail="mismatch")
+                sw.case(("l2_norm", dim, nc, mag, tuple(np.round(v / mag, 6))), True, sample={"l2_norm": [dim, nc, mag]})
+                if not (np.allclose(r.val, nv, rtol=1e-12, atol=0) and np.allclose(r.jac.toarray(), dJ, rtol=1e-10, atol=1e-12)):
+                    rep.violation("l2_norm: value and Jacobian", f"dim={dim}" + ("" if mag == 1.0 else ", small non-zero vectors"),
+                                  inputs={"dim": dim, "v": v.tolist()}, detail=f"value {r.val.tolist()} expected {nv.tolist()}; Jacobian {r.jac.toarray().tolist()} expected {dJ.tolist()}")
+        # integer powers are polynomials: smooth at a base that is exactly zero (d/dx x**p = p * x**(p-1), with 0**0 = 1 for p = 1)
+        for n in (2, 3, 5):
+            for form in ("array", "scalar"):
+                for _ in range(2 if quick else 10):
+                    x = np.array([rng.choice([0.0, 0.0, rng.uniform(-2, 2)]) for _ in range(n)])
+                    x[rng.randrange(n)] = 0.0
+                    p = np.array([float(rng.choice([1, 1, 2, 3])) for _ in range(n)]) if form == "array" else float(rng.choice([1, 2, 3]))
+                    (a,) = pp.ad.initAdArrays([x.copy()])
+                    with warnings.catch_warnings():
+                        warnings.simplefilter("ignore")
+                        r = a ** (p.copy() if form == "array" else p)
+                    pe = p if form == "array" else np.full(n, p)
+                    want_v = x ** pe
+                    want_d = np.array([pe[k] * (x[k] ** (pe[k] - 1) if pe[k] != 1 else 1.0) for k in range(n)])
+                    sw.case(("intpow", form, tuple(x.tolist()), tuple(pe.tolist())), True, sample={"x": x.tolist(), "p": pe.tolist()})
+                    J = r.jac.toarray()
+                    if not (np.allclose(r.val, want_v, rtol=1e-13, atol=0) and np.allclose(J, np.diag(want_d), rtol=1e-13, atol=0)):
+                        rep.violation("AdArray.__pow__: integer exponent at a zero base (polynomial): value and Jacobian", f"{form} exponent",
+                                      inputs={"intpow": form, "x": x.tolist(), "p": pe.tolist()},
+                                      detail=f"value {r.val.tolist()} expected {want_v.tolist()}; Jacobian diagonal {np.diag(J).tolist()} expected {want_d.tolist()}")
+        # frame: a function of AdArrays leaves its operands as they were (maximum updates a Jacobian in place: it must be its own copy)
+        import scipy.sparse as sps
+
+        for fmt in ("csr", "csc", "coo"):
+            for _ in range(2 if quick else 10):
+                n = rng.randint(2, 5)
+                xv, yv = np.array([rng.uniform(-1, 1) for _ in range(n)]), np.array([rng.uniform(-1, 1) for _ in range(n)])
+                Ju = sps.random(n, n + 1, density=0.6, random_state=rng.randrange(10**6), format=fmt) + sps.eye(n, n + 1, format=fmt)
+                Jw = sps.random(n, n + 1, density=0.6, random_state=rng.randrange(10**6), format="csr")
+                u, w = pp.ad.AdArray(xv.copy(), Ju.asformat(fmt)), pp.ad.AdArray(yv.copy(), Jw)
+                u0, w0 = (u.val.copy(), u.jac.toarray().copy()), (w.val.copy(), w.jac.toarray().copy())
+                sw.case(("frame-maximum", fmt, tuple(np.round(xv, 6)), tuple(np.round(yv, 6))), True)
+                try:
+                    r = fns.maximum(u, w)
+                except Exception as e:  # noqa  (a csc first Jacobian used to be rejected inside merge_matrices: fixed, see KNOWN_FINDINGS)
+                    rep.violation("maximum: returns for AdArrays with any sparse Jacobian format", f"first Jacobian {fmt}",
+                                  inputs={"frame_maximum": fmt, "x": xv.tolist(), "y": yv.tolist()}, detail=f"{type(e).__name__}: {e}")
+                    continue
+                ok = (np.array_equal(u.val, u0[0]) and np.array_equal(u.jac.toarray(), u0[1]) and np.array_equal(w.val, w0[0])
+                      and np.array_equal(w.jac.toarray(), w0[1]))
+                pick = yv > xv
+                wantJ = np.where(pick[:, None], w0[1], u0[1])
+                if not ok:
+                    rep.violation("maximum: operands unchanged (frame)", f"first Jacobian {fmt}", inputs={"frame_maximum": fmt, "x": xv.tolist(), "y": yv.tolist()},
+                                  detail="an operand's value or Jacobian differs after the call")
+                if not (np.allclose(r.val, np.maximum(xv, yv)) and np.allclose(r.jac.toarray(), wantJ)):
+                    rep.violation("maximum: value and Jacobian rows of the larger operand", f"first Jacobian {fmt}",
+                                  inputs={"frame_maximum": fmt, "x": xv.tolist(), "y": yv.tolist()}, detail="mismatch")
 
 
 def _sig(desc):
